@@ -42,3 +42,19 @@ fn aggregate_queries_naming_other_columns_do_not_kill_the_worker() {
         survives(&db, q);
     }
 }
+
+#[test]
+fn insert_select_with_a_row_narrower_than_the_column_list_does_not_kill_the_worker() {
+    let dir = tempfile::TempDir::new().unwrap();
+    let db = Database::create(dir.path().join("t.db"), DBConfig::default()).unwrap();
+    db.execute("CREATE TABLE src (id BIGINT, v INT)").unwrap();
+    db.execute("CREATE TABLE dst (a INT, b BIGINT)").unwrap();
+    db.execute("INSERT INTO src VALUES (1, 10), (2, 20), (3, 30)").unwrap();
+    // the aggregate operator emits one value per aggregate: the source row is narrower than the select list
+    for q in ["INSERT INTO dst (a, b) SELECT v, id FROM src", "INSERT INTO dst (a, b) SELECT COUNT(*), COUNT(*) FROM src",
+              "INSERT INTO dst (a, b) SELECT 1, COUNT(*) FROM src", "INSERT INTO dst (b, a) SELECT 1, COUNT(*) FROM src",
+              "INSERT INTO dst (a, b) SELECT 1, 2, COUNT(*) FROM src", "INSERT INTO dst (a) SELECT COUNT(*) FROM src GROUP BY v"] {
+        survives(&db, q);
+    }
+    survives(&db, "INSERT INTO dst VALUES (7, 7)");
+}
